@@ -175,6 +175,11 @@ pub struct AllSkippedExpands;
 /// #[derive(ts_rs::TS)]
 /// #[ts(optional_fields)]
 /// struct O<T> { t: T, u: Option<T> }
+/// #[derive(ts_rs::TS)]
+/// #[ts(optional_fields)]
+/// struct P<T> { rest: Vec<T>, b: Box<T>, first: T, next: Option<T> }
+/// #[derive(ts_rs::TS)]
+/// struct R<T> { #[ts(optional)] a: Option<Vec<T>> }
 /// macro_rules! mk { ($name:ident, $t:ty) => { #[derive(ts_rs::TS)] struct $name<T> { x: $t } }; }
 /// mk!(Grouped, Vec<T>);
 /// ```
